@@ -218,6 +218,29 @@ func init() {
 	register("compress", func(a []string) string {
 		return tohex(extCompress(atoi(a[0]), unhex(a[1])))
 	})
+	// decompress <codec> <hex> -> ok <hex> | err   (external library)
+	register("decompress", func(a []string) string {
+		b := unhex(a[1])
+		switch atoi(a[0]) {
+		case 1:
+			out, err := snappy.Decode(nil, b)
+			if err != nil {
+				return "err"
+			}
+			return "ok " + tohex(out)
+		case 2:
+			zr, err := gzip.NewReader(bytes.NewReader(b))
+			if err != nil {
+				return "err"
+			}
+			out, err := io.ReadAll(zr)
+			if err != nil {
+				return "err"
+			}
+			return "ok " + tohex(out)
+		}
+		return "ok " + tohex(b)
+	})
 	// zoo-write <name> <max> <codec> <ops> [failAt] -> <filehex> <calls>
 	// calls: per API call (constructor first) the sink write sizes, or err / panic
 	register("zoo-write", func(a []string) string {
